@@ -267,6 +267,46 @@ theorem statement_false : ¬ C13_statement := by
   revert this
   decide
 
+/-! ### a `None` alternative makes the field optional in EVERY position -/
+
+/-- `a: Union[None, int]`, `a: None | int` and `a = AnyOf[None, Integer]` + `_optional` are the same field
+    in three spellings (None FIRST): in the supported region, pairwise `FieldSame`, and all elaborate to the
+    same optional (not required) field. -/
+theorem none_first_equiv :
+    let a : FieldSp := annF (.union .noneLit (.builtin .int))
+    let b : FieldSp := annF (.pipe .noneLit (.builtin .int))
+    let c : FieldSp := { name := "a", mode := .assign, ty := .anyOf .noneLit fInt, inOptional := true }
+    FieldSame a c ∧ FieldSame b c
+    ∧ fieldSupported noRe tm true a = true ∧ fieldSupported noRe tm true b = true
+    ∧ fieldSupported noRe tm false c = true
+    ∧ elabField noRe tm false a = .ok (.field (.anyOf [.noneF, .integer {}]) false none)
+    ∧ elabField noRe tm false b = elabField noRe tm false a
+    ∧ elabField noRe tm false c = elabField noRe tm false a :=
+  ⟨⟨rfl, SameMeaning.alt .union .anyOf SameMeaning.none (SameMeaning.scalar .builtin .cls .int), rfl, rfl⟩,
+   ⟨rfl, SameMeaning.alt .pipe .anyOf SameMeaning.none (SameMeaning.scalar .builtin .cls .int), rfl, rfl⟩,
+   rfl, rfl, rfl, rfl, rfl, rfl⟩
+
+/-- `_is_optional` is "some option is None", wherever it stands: `Union[int, None, str]` (written
+    `Union[Union[int, None], str]`, which `typing` flattens), `int | None | str`, `Union[None, int, str]` and
+    `Union[int, Optional[str]]` all declare an optional field (model facts outside the `supported` region,
+    which excludes flattened unions; tied to the code by the correspondence suite's directed stream). -/
+theorem none_inner_optional :
+    elabField noRe tm false (annF (.union (.union (.builtin .int) .noneLit) (.builtin .str)))
+        = .ok (.field (.anyOf [.integer {}, .noneF, .string none none none]) false none)
+    ∧ elabField noRe tm false (annF (.pipe (.pipe (.builtin .int) .noneLit) (.builtin .str)))
+        = .ok (.field (.anyOf [.integer {}, .noneF, .string none none none]) false none)
+    ∧ elabField noRe tm false (annF (.union (.union .noneLit (.builtin .int)) (.builtin .str)))
+        = .ok (.field (.anyOf [.noneF, .integer {}, .string none none none]) false none)
+    ∧ elabField noRe tm false (annF (.union (.builtin .int) (.optional (.builtin .str))))
+        = .ok (.field (.anyOf [.integer {}, .string none none none, .noneF]) false none)
+    ∧ elabField noRe tm false (annF (.pipe (.optional (.builtin .int)) (.builtin .str)))
+        = .ok (.field (.anyOf [.integer {}, .noneF, .string none none none]) false none) :=
+  ⟨rfl, rfl, rfl, rfl, rfl⟩
+
+/-- `hasNoneOpt` does not depend on the position of the `None` option. -/
+theorem hasNoneOpt_position (pre post : List FieldDecl) : hasNoneOpt (.anyOf (pre ++ .noneF :: post)) = true := by
+  simp [hasNoneOpt, isNoneF]
+
 /-! ### non-vacuity -/
 
 /-- `a: Optional[list[dict[str, int]]]` (builtins / typing, under the future import),
